@@ -21,7 +21,7 @@ func c14Config(x *explore.Ctx, thorough bool) gow.Config {
 		comp    string
 		custom  int
 	}
-	modes := []m{{false, 0, "", 0}, {true, 1, "", 0}, {true, 64, "", 0}, {true, 64, "zstd", 0}, {true, 64, "lz4", 0}, {true, 64, "", 1}}
+	modes := []m{{false, 0, "", 0}, {true, 1, "", 0}, {true, 64, "", 0}, {true, 1 << 20, "", 0}, {true, 64, "zstd", 0}, {true, 64, "lz4", 0}, {true, 64, "", 1}}
 	md := modes[x.Choose("cfg", len(modes))]
 	flagSets := []int{0, gow.FSkipMagic, gow.FSkipMessageIndexing | gow.FSkipChunkIndex, gow.FSkipStatistics | gow.FSkipSummaryOffsets | gow.FSkipRepeatedSchemas | gow.FSkipRepeatedChannelInfos | gow.FSkipAttachmentIndex | gow.FSkipMetadataIndex}
 	if md.comp == "zstd" && !thorough {
